@@ -20,6 +20,7 @@ SPEC = {
         "TransactionBody is exercised by the harness (real TransactionBody decode) but not modelled",
     ],
     "assumptions": ["Model/Minicbor.lean agrees with minicbor 0.26.5 (validated by stream `minicbor`, see C03)"],
-    "explanation": "self-tests on the pallas worktree: (break) NonZeroInt::decode without the zero check -> VIOLATION zero-accepted "
-                   "wrapper=NonZeroInt; (break) PositiveCoin check `n == 0` -> `n == 1`; (harmless) changed error message text -> quiet.",
+    "explanation": "self-tests run on the pallas worktree (then reverted): (break) NonZeroInt::decode without the zero check -> exit 1, VIOLATION replay "
+                   "numwrap-viol-zero-accepted wrapper=NonZeroInt site=direct; (harmless) other error message texts for both wrappers -> exit 0, quiet; "
+                   "unchanged tree -> exit 0.",
 }
